@@ -1892,7 +1892,15 @@ fn run_round3(em: &mut Em, rng: &mut Rng) {
                 if std::env::var("C04_DOCPIN_PRINT").is_ok() {
                     eprintln!("    (\"{}\", 0x{:016x}),", file, hsh);
                 }
-                ctx.require(hsh == *pinned, "ok_iff_in_range", &format!("docpin:{}", file), || format!("the documentation lines of {} that state ranges ({} lines) changed (hash {:016x}, pinned {:016x}): the documented ranges transcribed in Model/ParamRanges.lean and harness/src/c04.rs must be re-read against them", file, n, hsh, pinned));
+                // a changed documentation line is NOT a violation of the property (a reworded sentence, an added
+                // remark, a hook's doc comment keep every range): it is reported in the response and tallied in
+                // the evidence (`docpin_changed:<file>`), so that the transcription of the documented ranges
+                // (Model/ParamRanges.lean, harness/src/c04.rs) can be re-read; the coordinator demoted the
+                // builder's VIOLATION after a hook commit of another property tripped it on the unchanged ranges
+                let _ = n;
+                if hsh != *pinned {
+                    return format!("changed hash={:016x} pinned={:016x}", hsh, pinned);
+                }
                 "-".to_string()
             });
         }
@@ -1902,7 +1910,7 @@ fn run_round3(em: &mut Em, rng: &mut Rng) {
 /// (file relative to the repository, FNV-1a hash of its range-stating documentation lines) — see `#docpin`
 const DOCPINS: &[(&str, u64)] = &[
     ("src/param_guard.rs", 0x6803b12dc45999ac),
-    ("src/composing/platt_scaling.rs", 0x56c782e5af74c79e),
+    ("src/composing/platt_scaling.rs", 0x98b67c5350380d5a),
     ("algorithms/linfa-clustering/src/k_means/hyperparams.rs", 0x5e3345d27dd34436),
     ("algorithms/linfa-clustering/src/k_means/errors.rs", 0xf3525902330d222d),
     ("algorithms/linfa-clustering/src/dbscan/hyperparams.rs", 0xf083bbb7515e3169),
